@@ -14,7 +14,7 @@ import (
 
 func init() {
 	checks["C18"] = checkC18
-	explanations["C18"] = "Structural necessary conditions (E2: SQL access table extracted from the constant arguments of insert/update/query/remove in package sqlite vs the schema parsed from Init's CREATE TABLE literals; E1 for session binding): every (table, column) used exists; every access to a table with a session column carries session=<id> where <id> is the result of sessionID(ctx) with ok==true (which itself requires hmac.Equal, C08); every upsert conflict target is a UNIQUE/PRIMARY KEY column of its table and is `session` for session-scoped tables; every session-scoped table has FOREIGN KEY(session) REFERENCES sessions(id) ON DELETE CASCADE|SET NULL and InvalidateToken deletes the sessions row; for every SetX/X method pair the columns X reads are written by SetX on the same table and no value column is written by two different setters; ReplaceVoucher succeeds only after both the insert of the new and the delete of the old voucher succeeded; RVBlob enforces expiry with matching units (shared with C07); no method of *DB stores to its receiver or to a package variable (all state lives in the database, so a fresh server object continues a session). Also: no Set* method writes with insertOrIgnore (setters overwrite), and in ReplaceVoucher exactly one delete names the old GUID while every other delete names the replacement's GUID. Not decided: SQLite's own semantics, concurrent histories, value fidelity of the blobs (C11), restarts as executions."
+	explanations["C18"] = "Structural necessary conditions (E2: SQL access table extracted from the constant arguments of insert/update/query/remove in package sqlite vs the schema parsed from Init's CREATE TABLE literals; E1 for session binding): every (table, column) used exists; every access to a table with a session column carries session=<id> where <id> is the result of sessionID(ctx) with ok==true (which itself requires hmac.Equal, C08); every upsert conflict target is a UNIQUE/PRIMARY KEY column of its table and is `session` for session-scoped tables; every session-scoped table has FOREIGN KEY(session) REFERENCES sessions(id) ON DELETE CASCADE|SET NULL and InvalidateToken deletes the sessions row; for every SetX/X method pair the columns X reads are written by SetX on the same table and no value column is written by two different setters; ReplaceVoucher succeeds only after both the insert of the new and the delete of the old voucher succeeded; RVBlob enforces expiry with matching units (shared with C07); no method of *DB stores to its receiver or to a package variable (all state lives in the database, so a fresh server object continues a session). Also: no Set* method writes with insertOrIgnore (setters overwrite), and in ReplaceVoucher exactly one delete names the old GUID while every other delete names the replacement's GUID. Also: AddVoucher, on which ReplaceVoucher's add/delete/undo sequence is built, is a strict insert (nil conflict list, no other statement). Not decided: SQLite's own semantics, concurrent histories, value fidelity of the blobs (C11), restarts as executions."
 }
 
 type sqlTable struct {
